@@ -44,7 +44,7 @@ type lk struct {
 func coin(d string, a osmomath.Int) sdk.Coin { return sdk.NewCoin(d, a) }
 
 func TestPropSuperfluid(t *testing.T) {
-	drv.Check(t, drv.Cfg{Name: "superfluid", Rule: rule, Quick: 150, Thorough: 5000, Steps: 30, TSteps: 60}, func(rt *rapid.T, cs *drv.Case) {
+	drv.Check(t, drv.Cfg{Name: "superfluid", Rule: rule, Quick: 350, Thorough: 5000, Steps: 30, TSteps: 60}, func(rt *rapid.T, cs *drv.Case) {
 		c := chain.New(t)
 		sk, sfk, lkk := c.App.StakingKeeper, c.App.SuperfluidKeeper, c.App.LockupKeeper
 		bond, _ := sk.BondDenom(c.Ctx)
@@ -149,6 +149,15 @@ func TestPropSuperfluid(t *testing.T) {
 			switch rapid.IntRange(0, 5).Draw(rt, "amtShape") {
 			case 0:
 				return osmomath.NewInt(rapid.Int64Range(1, 1000).Draw(rt, "amtTiny")) // worth zero OSMO: must be rejected
+			case 1:
+				// worth only a few base units of OSMO at the current multiplier: a price drop makes the whole stake of an
+				// intermediary account round to zero, a recovery must bring it back
+				mult := sfk.GetOsmoEquivalentMultiplier(c.Ctx, share)
+				if mult.IsPositive() {
+					k := rapid.Int64Range(1, 6).Draw(rt, "amtUnits")
+					return osmomath.NewDec(2 * k).Quo(mult).Ceil().TruncateInt().AddRaw(1)
+				}
+				return osmomath.NewInt(rapid.Int64Range(1, 1_000_000).Draw(rt, "amtMant0")).Mul(osmomath.NewIntWithDecimal(1, 10))
 			default:
 				return osmomath.NewInt(rapid.Int64Range(1, 1_000_000).Draw(rt, "amtMant")).Mul(osmomath.NewIntWithDecimal(1, rapid.IntRange(10, 13).Draw(rt, "amtExp")))
 			}
@@ -397,6 +406,23 @@ func TestPropSuperfluid(t *testing.T) {
 				}
 				cs.Class("forbidden-unlock-rejected")
 			},
+			// MsgBeginUnlockingAll by an owner who holds a delegated (or undelegating) lock, on a discarded branch: whatever it
+			// does to the owner's plain locks, no lock that carries a staking marker may start unlocking
+			"forbiddenUnlockAll": func(rt *rapid.T) {
+				_, l := pick(rt, func(l *lk) bool { return l.delegated })
+				b := c.Branch()
+				r := b.Exec(lockuptypes.NewMsgBeginUnlockingAll(chain.Actor(l.owner)))
+				for _, id := range sortedLocks(func(x *lk) bool { return x.delegated && x.owner == l.owner }) {
+					lock, err := b.App.LockupKeeper.GetLockByID(b.Ctx, id)
+					if err != nil {
+						rt.Fatalf("delegated lock %d vanished through MsgBeginUnlockingAll (ok=%v) [history %v]", id, r.OK(), hist)
+					}
+					if lock.IsUnlocking() {
+						rt.Fatalf("MsgBeginUnlockingAll by owner %d (ok=%v) started unlocking lock %d, which is superfluid-delegated [history %v]", l.owner, r.OK(), id, hist)
+					}
+				}
+				cs.Class("forbidden-unlock-all-checked")
+			},
 			"clCreateAndDelegate": func(rt *rapid.T) {
 				if clShare == "" {
 					rt.Skip("no concentrated asset")
@@ -492,6 +518,9 @@ func TestPropSuperfluid(t *testing.T) {
 			// staking's, not superfluid's, so the supply baseline is re-read after it; everything superfluid does afterwards
 			// (undelegations and refreshes at an exchange rate != 1) must again leave the reported supply alone.
 			"slash": func(rt *rapid.T) {
+				if rapid.IntRange(0, 3).Draw(rt, "slashGate") != 0 {
+					rt.Skip("slashes are rare events")
+				}
 				val := valAddrs[rapid.IntRange(0, len(valAddrs)-1).Draw(rt, "val")]
 				frac := rapid.SampledFrom([]string{"0.01", "0.05", "0.07", "0.000001", "0.5"}).Draw(rt, "fraction")
 				if slashed[val] >= 2 {
